@@ -365,6 +365,21 @@ func checkC12(c *mc.Ctx) {
 			c12Encode(c, h, fmt.Sprintf("shape=%d", i), i%8 == 0)
 		}
 	})
+	// decode only: the extension's pack_header_field_flag with an empty pack header (pack_field_length 0 - the library
+	// reads the length byte and not the pack header itself, as its source says), in front of every subset of the other
+	// extension parts; the writer cannot express the flag
+	var npack int64
+	for e := 0; e < 16; e++ {
+		for _, top := range []int64{0, 2} {
+			idx := pesShapeRadix.Index([]int{int(top), 0, 0, 0, 0, 0, e + 1})
+			h := pesShape(idx, 0xe0)
+			h.Ext.HasPack, h.Ext.PackHeader = true, []byte{}
+			c12Decode(c, h, fmt.Sprintf("shape=%d + empty pack header", idx), false)
+			npack++
+		}
+	}
+	c.Ev.Class("pack-header-flag-decoded", npack)
+	c.Ev.AddScenario(mc.Scenario{Name: "pack header flag", SpaceSize: npack, Executed: npack, Exhaustive: true, Bound: "16 extension subsets x {no timestamps, PTS+DTS} with pack_header_field_flag and pack_field_length 0, decode side"})
 	c.Ev.AddScenario(mc.Scenario{Name: "structural shapes", SpaceSize: ns * 3, Executed: done * 3, Exhaustive: done == ns, Bound: "PTS/DTS indicator x ESCR x ES rate x trick x copy info x CRC x (no extension | 16 extension subsets) x 3 stream ids"})
 	c.Ev.DistinctAdd(done * 3)
 	// one deviation per field on a family of shapes that contain it
